@@ -860,11 +860,12 @@ pub fn run(tier: Tier, seed: u64) -> i32 {
             "interleaving states are merged on the position vector; the thorough tier re-explores without merging".into(),
             "values drawn by random are outside the property; the seed is pinned through hook H1".into(),
         ],
-        required_witnesses: vec!["non_identity_hash_map_order", "binding_error_compared", "real_hash_map_order_varies_under_the_seam", "non_identity_order_in_the_dig_loader", "step_while_another_iterator_is_mid_run", "iterator_restarted_mid_run", "program_reading_outputs_is_not_static", "static_program_compared_with_dynamic_runs", "static_iteration_past_an_error_item", "row_spoilt_by_a_misbehaving_driver_then_carried_on", "static_program_with_an_error_item_compared_with_dynamic_runs", "one_loaded_test_used_twice_with_different_drivers", "same_program_under_three_seeds", "static_test_with_70000_rows"],
+        required_witnesses: vec!["non_identity_hash_map_order", "binding_error_compared", "real_hash_map_order_varies_under_the_seam", "non_identity_order_in_the_dig_loader", "step_while_another_iterator_is_mid_run", "iterator_restarted_mid_run", "program_reading_outputs_is_not_static", "static_program_compared_with_dynamic_runs", "static_iteration_past_an_error_item", "row_spoilt_by_a_misbehaving_driver_then_carried_on", "static_program_with_an_error_item_compared_with_dynamic_runs", "one_loaded_test_used_twice_with_different_drivers", "iterator_advanced_with_nth", "same_program_under_three_seeds", "static_test_with_70000_rows"],
         exhaustive_note: "all orders, all interleavings (as states and schedule edges), all programs within the bounds".into(),
         e1: true,
     };
     total.merge(crate::props::c13::reuse_part(&deadline));
+    total.merge(crate::props::c13::api_use_part(&deadline));
     finish(meta, total, started)
 }
 
